@@ -46,19 +46,67 @@ def enc_pairing(p):
     return [enc_item(it) for it in p]
 
 
-def collect(gen_fn, *args, limit=200000):
-    """run a generator function of the implementation -> (list of yields, exception name or None)"""
+class _Timeout(Exception):
+    pass
+
+
+def _alarm(_signum, _frame):
+    raise _Timeout()
+
+
+# after this many calls of the implementation ran into the time limit the remaining calls are not
+# attempted any more (they are reported as skipped): a hanging implementation must not hang the check
+_MAX_TIMEOUTS = 4
+_timeouts = [0]
+
+
+def collect(gen_fn, *args, limit=20000, seconds=10):
+    """run a generator function of the implementation -> (list of yields, exception name or None);
+    a call that does not finish within `seconds` (or yields without end) is reported, never waited for"""
+    import signal
     out = []
+    if _timeouts[0] >= _MAX_TIMEOUTS:
+        return out, 'Timeout(skipped)'
+    old = signal.signal(signal.SIGALRM, _alarm)
+    signal.setitimer(signal.ITIMER_REAL, seconds)
     try:
         for y in gen_fn(*args):
             out.append(y)
             if len(out) > limit:
+                _timeouts[0] += 1
                 return out, 'too-many-yields'
+    except _Timeout:
+        _timeouts[0] += 1
+        return out, 'Timeout(%ds)' % seconds
     except RecursionError:
         return out, 'RecursionError'
     except Exception as e:  # noqa: BLE001
         return out, type(e).__name__
+    finally:
+        signal.setitimer(signal.ITIMER_REAL, 0)
+        signal.signal(signal.SIGALRM, old)
     return out, None
+
+
+def call1(fn, *args, seconds=10):
+    """plain call of the implementation with the same time limit -> (value, exception name or None)"""
+    import signal
+    if _timeouts[0] >= _MAX_TIMEOUTS:
+        return None, 'Timeout(skipped)'
+    old = signal.signal(signal.SIGALRM, _alarm)
+    signal.setitimer(signal.ITIMER_REAL, seconds)
+    try:
+        return fn(*args), None
+    except _Timeout:
+        _timeouts[0] += 1
+        return None, 'Timeout(%ds)' % seconds
+    except RecursionError:
+        return None, 'RecursionError'
+    except Exception as e:  # noqa: BLE001
+        return None, type(e).__name__
+    finally:
+        signal.setitimer(signal.ITIMER_REAL, 0)
+        signal.signal(signal.SIGALRM, old)
 
 
 def labels_for(rng, n, shift=True):
@@ -259,10 +307,13 @@ def stream_helpers(ctx, fp):
             b.add(case, [enc_pairing(y) for y in ys], {'op': 'c18.gen_pairings_between', 'a': pa, 'b': pb})
     for bins in range(0, 25):
         for size in range(0, 65):
-            r = fp._get_padding(bins, size)
+            r, exc = call1(fp._get_padding, bins, size, seconds=5)
             case = {'fn': '_get_padding', 'num_bins': bins, 'bin_size': size}
             s.case(case, nontrivial=bins > 3)
             s.count('_get_padding')
+            if exc:
+                s.violate('unexpected exception ' + exc, case, {})
+                continue
             b.add(case, int(r), {'op': 'c18.get_padding', 'bins': bins, 'size': size},
                   [('_get_padding: not the least admissible size',
                     {'op': 'c18.spec.padding', 'bins': bins, 'size': size, 'r': int(r)}, is_true)])
@@ -569,9 +620,16 @@ def stream_tpb(ctx, of, qp):
         case = {'fn': 'group_into_tensor_product_basis_sets', 'operator': op_enc, 'seed': seed}
         s.case(case, nontrivial=len(op.terms) >= 2)
         try:
-            res, log = tpb_recorded(qp, op, seed)
+            (res_log, exc) = call1(tpb_recorded, qp, op, seed)
+            if exc:
+                s.violate('unexpected exception ' + exc, case, {})
+                continue
+            res, log = res_log
             if seed is not None:
-                plain = qp.group_into_tensor_product_basis_sets(op, seed)
+                plain, exc = call1(qp.group_into_tensor_product_basis_sets, op, seed)
+                if exc:
+                    s.violate('unexpected exception ' + exc, case, {})
+                    continue
                 if enc_groups(plain) != enc_groups(res):
                     # the recording shim does not reproduce numpy's shuffle: harness assumption broken
                     s.discards += 1
@@ -591,7 +649,10 @@ def stream_tpb(ctx, of, qp):
             terms = list(op.terms)
             term = rng.choice(terms)
             bases = [x for x in terms if rng.random() < 0.7]
-            got = qp._find_compatible_basis(term, bases)
+            got, exc = call1(qp._find_compatible_basis, term, bases)
+            if exc:
+                s.violate('unexpected exception ' + exc, {'fn': '_find_compatible_basis'}, {})
+                continue
             c2 = {'fn': '_find_compatible_basis', 'term': enc_term('qubit', term), 'bases': [enc_term('qubit', x) for x in bases]}
             s.case(c2)
             s.count('_find_compatible_basis')
